@@ -174,6 +174,20 @@ class Family:
     def describe(self, inst):
         return json.dumps(inst, sort_keys=True)
 
+    def execute(self, ex, path, inst, I, srcfile):
+        """symbolic (or concrete) run of the real kernel(s); returns the outputs dict O"""
+        args, objs, vals = make_call(self, inst, I)
+        ret = ex.run(path, self.kernel, vals, srcfile)
+        O = {'ret': ret}
+        for a in args:
+            if isinstance(a, Buf):
+                O[a.name] = objs[a.name].cells
+        return O
+
+    def native(self, ctx, inst, Ic):
+        """the same call(s) on the natively compiled, sanitised kernels; returns (status dict, O, call text)"""
+        return native_call(ctx, self, inst, Ic)
+
     def viol_filter(self, inst, I, viol):
         """memory families: return False to drop an obligation the wrapper contract rules out"""
         return True
@@ -309,9 +323,9 @@ def explore_instance(ctx, fam, inst, tier, seed, known_active):
             xr.Eps.reset(fam.eps)
             S = Sym(path)
             I = fam.inputs(inst, S)
-            args, objs, vals = make_call(fam, inst, I)
+            O = None
             try:
-                ret = ex.run(path, fam.kernel, vals, srcfile)
+                O = fam.execute(ex, path, inst, I, srcfile)
                 bound = False
             except BoundExceeded as e:
                 bound = True
@@ -323,10 +337,6 @@ def explore_instance(ctx, fam, inst, tier, seed, known_active):
             res['paths'] += 1
             if bound:
                 continue
-            O = {'ret': ret}
-            for a in args:
-                if isinstance(a, Buf):
-                    O[a.name] = objs[a.name].cells
             res['uninit_reads'] += len(path.uninit)
             check_path(ctx, ex, fam, inst, path, I, O, res, known_active, confirmed_known, tier)
             if res['validated'] + res['validation_skipped'] < fam.validate_paths:
@@ -473,7 +483,7 @@ def check_path(ctx, ex, fam, inst, path, I, O, res, known_active, confirmed_know
                 break
             m = nicer_model(ex, path, [] if c is True else [c], I, m)
             Ic = concretize(I, m)
-            nres, On, text = native_call(ctx, fam, inst, Ic)
+            nres, On, text = fam.native(ctx, inst, Ic)
             if fam.memory:
                 confirmed = nres['status'] in ('sanitizer', 'signal')
                 failed = [key] if confirmed else []
@@ -530,25 +540,20 @@ def validate_path(ctx, ex, fam, inst, path, I, res, srcfile):
             res['validation_skipped'] += 1
             return
     Ic = concretize(I, m)
-    args, objs, vals = make_call(fam, inst, Ic)
     p2 = Path()
     xr.Eps.reset(False)
     try:
-        ret = ex.run(p2, fam.kernel, vals, srcfile)
+        Oi = fam.execute(ex, p2, inst, Ic, srcfile)
     except BoundExceeded:
         res['validation_skipped'] += 1
         return
     if p2.uninit or p2.viols and any(v.cond is True for v in p2.viols):
         res['validation_skipped'] += 1   # behaviour of the real build is undefined here: nothing to compare
         return
-    nres, On, text = native_call(ctx, fam, inst, Ic)
+    nres, On, text = fam.native(ctx, inst, Ic)
     if nres['status'] != 'ok':
         res['validation_skipped'] += 1
         return
-    Oi = {'ret': ret}
-    for a in args:
-        if isinstance(a, Buf):
-            Oi[a.name] = objs[a.name].cells
     bad = []
     for k, v in Oi.items():
         w = On.get(k)
